@@ -15,7 +15,7 @@ SPEC = dict(
     lean_modules=["Qx.Props.C01Codec", "Qx.Props.C02Codec"],
     props_files=["lean/Qx/Props/C01Codec.lean", "lean/Qx/Props/C02Codec.lean"],
     drivers=["qxdriver_c01"],
-    harnesses=[dict(name="codec", asan=False, driver="qxdriver_c01")],
+    harnesses=[dict(name="codec", asan=False, driver="qxdriver_c01", reset_prefix="codec-reset")],
     exhaustive=False,
     rule="tier C",
     trusted_base=["Lean kernel", "schemas in lean/Qx/Xml/Codec/Classes.lean tied to the C++ by the codec harness"],
